@@ -142,6 +142,7 @@ fn project(reply: &Value, creqs: &[CReq]) -> Value {
             "Failed" => "reason".into(),
             "NeedsMore" => "none".into(),
             "ScriptError" => "step".into(),
+            "MethodNotImplemented" => if req > 0 && p["method"] == json!(creqs[req - 1].method) { "method".into() } else { "method-wrong".into() },
             _ => "unknown-error".into(),
         }
     };
